@@ -172,7 +172,14 @@ func genC05(r *simrt.Rand, tier string) json.RawMessage {
 	nSeg := r.Range(2, 5)
 	for seg := 0; seg < nSeg; seg++ {
 		c.Ops = append(c.Ops, genWrites(r, c.Nodes, r.Range(1, 5), nIds, &ver, 0.3)...)
-		switch r.Intn(10) {
+		switch r.Intn(11) {
+		case 9:
+			// the node's disk refuses one of its next writes; failing loudly and stopping is the
+			// legal reaction, going on as if the write had happened is not
+			n := r.Range(1, c.Nodes)
+			c.Ops = append(c.Ops, W3Op{K: "diskerr", Node: n, N: r.Range(1, 6)})
+			c.Ops = append(c.Ops, genWrites(r, c.Nodes, r.Range(1, 4), nIds, &ver, 0.3)...)
+			c.Ops = append(c.Ops, W3Op{K: "wait", Ms: r.Range(100, 2500)}, W3Op{K: "restart", Node: n})
 		case 0:
 			c.Ops = append(c.Ops, W3Op{K: "crash", Node: r.Range(1, c.Nodes)})
 		case 1:
@@ -718,7 +725,11 @@ func genC03(r *simrt.Rand, tier string) json.RawMessage {
 		n := r.Range(1, c.Nodes)
 		k := r.Range(1, len(cc.W3.Ops))
 		ops := append([]W3Op(nil), cc.W3.Ops[:k]...)
-		switch r.Intn(3) {
+		switch r.Intn(4) {
+		case 3:
+			// one of the node's next log writes fails (disk full); it restarts after the rest of the workload
+			ops = append(ops, W3Op{K: "diskerr", Node: n, N: r.Range(1, 5)})
+			cc.W3.Ops = append(cc.W3.Ops, W3Op{K: "wait", Ms: r.Range(100, 2000)}, W3Op{K: "restart", Node: n})
 		case 0:
 			ops = append(ops, W3Op{K: "crash", Node: n}, W3Op{K: "wait", Ms: r.Range(100, 2000)}, W3Op{K: "restart", Node: n})
 		case 1:
